@@ -1,8 +1,9 @@
 /- `hydrv rate`: line-protocol driver for Hy.Model.Rate (C10). Core Lean only. -/
 import Hy.Model.Rate
+import Hy.Model.RateConfig
 import Hy.Drv.Util
 namespace Hy.Drv.Rate
-open Hy Hy.Rate Hy.Drv
+open Hy Hy.Rate Hy.RateCfg Hy.Drv
 
 def showErr : PErr → String
   | .none => "ok"
@@ -25,6 +26,19 @@ def u64? (s : String) : Option Nat :=
 
 def showSide (reno : Bool) (o : Outcome) : String :=
   s!"{showInst (install reno o.ctl)} rep={o.reported}"
+
+def showBps : BpsRes → String
+  | .ok n => s!"ok {n}"
+  | .errFormat => "err format"
+  | .errRange => "err range"
+  | .errUnit => "err unit"
+
+def showCfg : CfgRes → String
+  | .ok tx rx => s!"ok {tx} {rx}"
+  | .errUp => "err bandwidth.up"
+  | .errDown => "err bandwidth.down"
+  | .errCoreTx => "err BandwidthConfig.MaxTx"
+  | .errCoreRx => "err BandwidthConfig.MaxRx"
 
 def step (line : String) : String :=
   match fields line with
@@ -72,6 +86,23 @@ def step (line : String) : String :=
   | ["scfg", up, down] =>
     match u64? up, u64? down with
     | some up, some down => if serverLimitOK up && serverLimitOK down then "scfg ok" else "scfg reject"
+    | _, _ => "bad-op"
+  | ["bps", h] =>
+    match ofHex h with
+    | some b => s!"bps {showBps (stringToBps b)}"
+    | none => "bad-op"
+  | ["convint", i] =>
+    match i.toInt? with
+    | some i =>
+      if -9223372036854775808 ≤ i ∧ i ≤ 9223372036854775807 then s!"conv {showBps (convBandwidth (.int i))}" else "bad-op"
+    | none => "bad-op"
+  | ["ccfg", u, d] =>
+    match ofHex u, ofHex d with
+    | some u, some d => s!"ccfg {showCfg (clientConfig { up := u, down := d })}"
+    | _, _ => "bad-op"
+  | ["acfg", u, d] =>
+    match ofHex u, ofHex d with
+    | some u, some d => s!"acfg {showCfg (serverConfig { up := u, down := d })}"
     | _, _ => "bad-op"
   | ["noop"] => "noop"
   | _ => "bad-op"
